@@ -830,6 +830,62 @@ func isRangeIndex(idx ssa.Value) bool {
 	return false
 }
 
+// rangeIndexOver: idx is the index variable of a `for i := range x` loop: the ranged value x (nil if unknown).
+func rangeIndexOver(idx ssa.Value) ssa.Value {
+	if !isRangeIndex(idx) {
+		return nil
+	}
+	in, ok := idx.(ssa.Instruction)
+	if !ok || in.Block() == nil {
+		return nil
+	}
+	blk := in.Block()
+	if blk.Comment != "rangeindex.loop" {
+		return nil
+	}
+	ifi, isIf := lastInstr(blk).(*ssa.If)
+	if !isIf {
+		return nil
+	}
+	bo, isB := ifi.Cond.(*ssa.BinOp)
+	if !isB || bo.Op != token.LSS {
+		return nil
+	}
+	if bo.X != idx {
+		// the phi itself: the compared value is phi+1
+		inc, isInc := bo.X.(*ssa.BinOp)
+		if !isInc || inc.X != idx {
+			return nil
+		}
+	}
+	return lenOf(bo.Y)
+}
+
+// sameSliceValue: a and b denote the same slice (the same SSA value, or two loads of the same variable / field).
+func sameSliceValue(a, b ssa.Value) bool {
+	if a == b {
+		return true
+	}
+	la, ok1 := a.(*ssa.UnOp)
+	lb, ok2 := b.(*ssa.UnOp)
+	if ok1 && ok2 && la.Op == token.MUL && lb.Op == token.MUL {
+		if la.X == lb.X {
+			return true
+		}
+		fa1, okA := la.X.(*ssa.FieldAddr)
+		fa2, okB := lb.X.(*ssa.FieldAddr)
+		if okA && okB && fa1.X == fa2.X && fa1.Field == fa2.Field {
+			return true
+		}
+	}
+	if fa, ok := a.(*ssa.Field); ok {
+		if fb, ok := b.(*ssa.Field); ok && fa.X == fb.X && fa.Field == fb.Field {
+			return true
+		}
+	}
+	return false
+}
+
 func isPhi(v ssa.Value) bool { _, ok := v.(*ssa.Phi); return ok }
 
 // LitKeyWith recomputes the key of a literal with some values replaced by placeholders
